@@ -164,6 +164,7 @@ type ctx struct {
 	allocated    []term
 	knownLen     map[string]int
 	ghostConst   map[string]term
+	inInv        bool
 	w        *world
 	con      *Contract
 	fn       *ssa.Function
@@ -214,7 +215,7 @@ func (x *ctx) declareFun(name string, args []srtT, res srtT) {
 func (x *ctx) declareSort(name string) {
 	if !x.seen["srtT:"+name] {
 		x.seen["srtT:"+name] = true
-		x.decls = append([]string{fmt.Sprintf("(declare-srtT %s 0)", name)}, x.decls...)
+		x.decls = append([]string{fmt.Sprintf("(declare-sort %s 0)", name)}, x.decls...)
 	}
 }
 
@@ -1000,7 +1001,18 @@ func (x *ctx) run(st *state, fr *frame, b *ssa.BasicBlock, idx int, prev *ssa.Ba
 			id := x.fresh
 			x.cellRootType[id] = t
 			st.cells[id] = x.zeroVal(t)
-			if _, isStruct := t.Underlying().(*types.Struct); isStruct && in.Heap {
+			if at, isArr := t.Underlying().(*types.Array); isArr {
+				// arrays (variadic argument packs, literals): a fresh reference with a known length
+				r := x.freshTerm("array", sRef)
+				st.define(not(eq(r, null)))
+				la := x.arr(st, "Len", false, sInt)
+				x.setArr(st, "Len", fmt.Sprintf("(store %s %s %s)", la, r.s, bvlit(uint64(at.Len()), 64)))
+				x.knownLen[r.s] = int(at.Len())
+				fr.regs[in] = scalar(r)
+				delete(st.cells, id)
+				continue
+			}
+			if _, isStruct := t.Underlying().(*types.Struct); isStruct && in.Heap && x.spec == 0 {
 				if _, leaf := x.leafSort(t); !leaf {
 					// heap object: fresh reference, fields live in heap arrays
 					r := x.freshTerm("new_"+structName(t), sRef)
@@ -1255,6 +1267,11 @@ func (x *ctx) indexAddr(st *state, fr *frame, in *ssa.IndexAddr) val {
 
 func (x *ctx) sliceOp(st *state, fr *frame, in *ssa.Slice) val {
 	base := x.get(fr, st, in.X)
+	if p, ok := in.X.Type().Underlying().(*types.Pointer); ok {
+		if _, isArr := p.Elem().Underlying().(*types.Array); isArr && in.Low == nil && in.High == nil && base.t.s != "" {
+			return base // slice of a whole array: same reference, same length
+		}
+	}
 	if _, ok := in.X.Type().Underlying().(*types.Slice); !ok {
 		return x.freshVal("slice", in.Type())
 	}
